@@ -13,8 +13,13 @@ TNext ==
   /\ IF ph < Len(Phases) THEN ph' = ph + 1 /\ i' = i
      ELSE ph' = 1 /\ i' = i + 1 /\ (i' > Len(Cases) => TLCSet(1, TRUE))
 
+(* no mode: the property (Sound).  mode "final-state": the attribution predicate of            *)
+(* Soundness.tla for counterfactual cases (prog = the program term, slots = the failing "ret" slots *)
+(* with the return type the stub of the cut-off program declares).                                   *)
 Ok == (i <= Len(Cases) /\ Phases[ph] = "judged") =>
-        LET f == SlotFails(Cases[i].H, Cases[i].slots) IN
+        LET f == IF "mode" \in DOMAIN Cases[i] /\ Cases[i].mode = "final-state"
+                 THEN FinalStateFails(Cases[i].H, Cases[i].prog, Cases[i].slots)
+                 ELSE SlotFails(Cases[i].H, Cases[i].slots) IN
           f = {} \/ PrintT(<<"BAD", ToJson([i |-> i, fails |-> f])>>)
 Done == TLCGet(1)
 =============================================================================
